@@ -83,6 +83,9 @@ pub struct Scn {
     /// name at top level have been through all of its worker threads
     #[serde(default)]
     pub server_pass: bool,
+    /// the document is a fragment: no root <svg> element around the body
+    #[serde(default)]
+    pub fragment: bool,
     #[serde(default)]
     pub addons: u8,
     #[serde(default)]
@@ -162,9 +165,22 @@ fn addon_parts(scn: &Scn) -> (String, String, Vec<(String, Vec<String>)>) {
         if outer {
             body.push_str("  <var vc=\"top\"/>\n");
         }
-        body.push_str("  <defs><var vc=\"indefs\"/></defs>\n  <a href=\"#\"><var vc=\"ina\"/><text xy=\"0 88\" text=\"CI:${vc};\"/></a>\n  <switch><var vc=\"insw\"/><rect xy=\"0 87\" wh=\"1\"/></switch>\n  <text xy=\"0 89\" text=\"CO:${vc};\"/>\n");
+        // (the assignment inside <a> is spelled with a self-closing or with an end tag; a loop
+        // variable is an assignment too)
+        let var_in_a = if v & 2 == 0 { "<var vc=\"ina\"/>" } else { "<var vc=\"ina\"></var>" };
+        body.push_str(&format!("  <defs><var vc=\"indefs\"/></defs>\n  <a href=\"#\">{var_in_a}<loop count=\"1\" loop-var=\"vi\"><rect xy=\"0 86\" wh=\"1\"/></loop><text xy=\"0 88\" text=\"CI:${{vc}};\"/></a>\n  <switch><var vc=\"insw\"></var><rect xy=\"0 87\" wh=\"1\"/></switch>\n  <text xy=\"0 89\" text=\"CO:${{vc}};CL:${{vi}};\"/>\n"));
         expect.push(("CI:".to_string(), vec!["CI:ina;".to_string()]));
-        expect.push(("CO:".to_string(), vec![if outer { "CO:top;".to_string() } else { "CO:${vc};".to_string() }]));
+        expect.push(("CO:".to_string(), vec![if outer { "CO:top;CL:${vi};".to_string() } else { "CO:${vc};CL:${vi};".to_string() }]));
+    }
+    if scn.fragment {
+        expect.push(("FG:".to_string(), vec!["FG:${vfg};${vfh};".to_string()]));
+    }
+    if scn.addons & 64 != 0 {
+        // the same value text read through the evaluator in two scopes where it means
+        // different things
+        body.push_str("  <g w=\"5\" k=\"$w\"><text xy=\"0 85\" text=\"LM:{{$k}};\"/></g>\n  <g w=\"7\" k=\"$w\"><text xy=\"0 84\" text=\"LM:{{$k}};\"/><if test=\"eq($k, 7)\"><text xy=\"0 83\" text=\"LT:yes;\"/></if></g>\n");
+        expect.push(("LM:".to_string(), vec!["LM:5;".to_string(), "LM:7;".to_string()]));
+        expect.push(("LT:".to_string(), vec!["LT:yes;".to_string()]));
     }
     (specs, body, expect)
 }
@@ -455,7 +471,9 @@ fn render_body(b: &[Stmt], ind: usize, in_template: bool, out: &mut String, line
 }
 
 pub fn render(scn: &Scn, fwd: bool) -> String {
-    let mut s = String::from("<svg>\n");
+    // (a fragment has no root element; a fragment whose first element opens a scope is the
+    // interesting one, so a group goes first)
+    let mut s = if scn.fragment { String::from("<g vfg=\"fg\"><rect xy=\"0 99\" wh=\"1\"/><var vfh=\"fh\"/></g>\n") } else { String::from("<svg>\n") };
     let anchors: String = (1..=scn.anchors)
         .map(|k| format!("  <rect id=\"anchor{k}\" xy=\"{} 50\" wh=\"3\"/>\n", k * 5))
         .collect();
@@ -494,7 +512,12 @@ pub fn render(scn: &Scn, fwd: bool) -> String {
     if fwd {
         s.push_str(&anchors);
     }
-    s.push_str("</svg>\n");
+    if scn.fragment {
+        // what the leading group defined is gone again
+        s.push_str("<text xy=\"0 98\" text=\"FG:${vfg};${vfh};\"/>\n");
+    } else {
+        s.push_str("</svg>\n");
+    }
     s
 }
 
@@ -810,8 +833,9 @@ impl Engine for C15 {
             var_limit,
             phantom: index % 12 == 7,
             server_pass: index % 16 == 11 && var_limit.is_none(),
-            addons: if index % 3 == 1 && var_limit.is_none() { 1 << (index / 3 % 6) } else { 0 },
-            addon_variant: (index / 18 % 32) as u8,
+            fragment: index % 8 == 5 && n_templates == 0,
+            addons: if index % 3 == 1 && var_limit.is_none() { 1 << (index / 3 % 7) } else { 0 },
+            addon_variant: (index / 21 % 32) as u8,
         })
         .unwrap()
     }
